@@ -677,8 +677,11 @@ func runC12(c *h.Ctx) {
 	// like_regex vs Go regexp under the translated flags
 	subjects := []string{"", "a", "A", "abc", "ABC", "a\nb", "a\nB", "ab\n", "\nb", "a.c", "axc", "a+b", "aab", "12", "x12y", "é", "É", "(a)", "a|b", "b", "a\\b", " a ", "a.c\nA.C",
 		// case folding is not lower-casing: final sigma, long s, micro sign, dotted capital I, Kelvin sign, sharp s
-		"ς", "σ", "Σ", "ſ.", "s.", "µ", "μ", "İ", "i", "I", "ı", "K", "k", "ß", "SS", "ǅ", "ǆ"}
-	patterns := []string{"^a", "a$", "a.c", "^$", "A", "b$", "^b", ".", "a|b", "(ab)+", "[0-9]+", "\\d", "^.*$", "a.b", "^a.b$", "é", "a+b", "\\(a\\)", "a\\.c", "", "^a$", "c$", "\\s", "(?i)a", "^B", "a\\\\b", "[[:alpha:]]+", "x*", "(a|b)c?", "^.+$", "σ", "ς", "s.", "μ", "i", "k", "ss", "ǆ", "İ"}
+		"ς", "σ", "Σ", "ſ.", "s.", "µ", "μ", "İ", "i", "I", "ı", "K", "k", "ß", "SS", "ǅ", "ǆ",
+		"a\\E.", "ab", "aEb", "a\\Eb", "\\E", "\\Qa.c\\E", "\\Qa.c", "a.c\\E|b", "a$b", "[", "(", "a{2}", "aa", "\\", "a\\", "%s", "a|", "$", "^"}
+	patterns := []string{"^a", "a$", "a.c", "^$", "A", "b$", "^b", ".", "a|b", "(ab)+", "[0-9]+", "\\d", "^.*$", "a.b", "^a.b$", "é", "a+b", "\\(a\\)", "a\\.c", "", "^a$", "c$", "\\s", "(?i)a", "^B", "a\\\\b", "[[:alpha:]]+", "x*", "(a|b)c?", "^.+$", "σ", "ς", "s.", "μ", "i", "k", "ss", "ǆ", "İ",
+		// what a pattern quoter must not trip over (literal under q, regular expressions otherwise)
+		"a\\E.", "\\E", "\\Qa.c\\E", "\\Qa.c", "a\\Eb", "\\E.*", "a.c\\E|b", "\\Q\\E", "$", "^", "a$b", "[", "(", "a{2}", "\\", "a\\", "%s", "a|"}
 	flagSets := []string{"", "i", "s", "m", "q", "is", "im", "sm", "iq", "ism", "ismq", "sq", "mq"}
 	idx = 0
 	for _, pat := range patterns {
